@@ -136,6 +136,11 @@ def cmdStack (wf special tDefaults tVars : KV) : KV :=
   let s1 := wrappedAndFlattened s0 [tDefaults]
   wrappedAndFlattened s1 [tVars]
 
+/-- `cmdStack` after notes/C14.fix.patch: workflow stack + specials wrapped over
+    (template vars over template defaults). Not what the code does today. -/
+def cmdStackFixed (wf special tDefaults tVars : KV) : KV :=
+  wrappedAndFlattened (overlay wf special) [tVars, tDefaults]
+
 /-- The stack `BuildPropertyMap` hands to the property fields: workflow stack
     wrapped over (template vars over template defaults), then the specials. -/
 def propStack (wf special tDefaults tVars : KV) : KV :=
